@@ -72,6 +72,11 @@ func VerifC19Framing() {
 		n := vrt.Bytes("nal", nl)
 		c19ValidNal(n)
 		nals = append(nals, n)
+		if i > 0 {
+			for z := 0; z < vrt.Param("mz"); z++ {
+				annexb = append(annexb, 0) // trailing_zero_8bits after the previous unit
+			}
+		}
 		if vrt.Bool("sc4") {
 			annexb = append(annexb, 0)
 		}
